@@ -272,7 +272,15 @@ class CFG:
 
     def stmt_block(self, n):
         """block containing the statement (or its nearest enclosing statement that is a CFG element)"""
-        x = n
+        if n["id"] in self.block_of:
+            return self.block_of[n["id"]]
+        if n["k"] in ("ExprWithCleanups", "ImplicitCastExpr", "ParenExpr", "MaterializeTemporaryExpr", "CXXBindTemporaryExpr", "ConstantExpr"):
+            # wrappers are not CFG elements themselves: the wrapped expression is (last evaluated = root of the subtree)
+            for c in kids(n):
+                b = self.stmt_block(c) if c["id"] in self.block_of or c["k"] in ("ExprWithCleanups", "ImplicitCastExpr", "ParenExpr", "MaterializeTemporaryExpr", "CXXBindTemporaryExpr", "ConstantExpr") else None
+                if b is not None:
+                    return b
+        x = self.fn.parent.get(n["id"])
         while x is not None:
             if x["id"] in self.block_of:
                 return self.block_of[x["id"]]
@@ -373,22 +381,57 @@ class CFG:
 
 # ---------------------------------------------------------------------------------------------
 
-def render(n, fn=None):
+def local_inits(fn):
+    """locals defined exactly once (declaration with initialiser, never written afterwards):
+    decl id -> initialiser node. Used to compare expressions across statements."""
+    inits = {}
+    for n in walk(fn.body):
+        if n["k"] == "DeclStmt":
+            for d in n["decls"]:
+                if d.get("init") is not None:
+                    inits[d["id"]] = d["init"]
+    written = set()
+    for n in walk(fn.body):
+        k = n["k"]
+        tgt = None
+        if k in ("BinaryOperator", "CompoundAssignOperator") and n.get("op", "").endswith("=") and n["op"] not in ("==", "!=", "<=", ">="):
+            tgt = strip(kids(n)[0])
+        elif k == "UnaryOperator" and n["op"] in ("++", "--"):
+            tgt = strip(kids(n)[0])
+        elif is_call(n) and n["callee"]["via"] == "operator" and n.get("op") in ("=", "++", "--", "+=", "-="):
+            for x in walk(n):
+                if x["id"] == n.get("obj"):
+                    tgt = strip(x)
+        if tgt is not None and tgt["k"] == "DeclRefExpr":
+            written.add(tgt["decl"]["id"])
+    return {i: e for i, e in inits.items() if i not in written}
+
+
+def render(n, subst=None):
     """canonical text of an expression tree: used for reports and structural equality of
-    expressions (names resolved by declaration, wrappers removed)"""
+    expressions (names resolved by declaration, wrappers removed). `subst` maps local decl ids to
+    initialiser nodes that are rendered in place of the local's name."""
     n = strip(n)
     if n is None:
         return "?"
     k = n["k"]
     ks = kids(n)
+    if subst is not None:
+        _r = render
+        def render_(x, _s=subst):
+            return _r(x, _s)
+    else:
+        render_ = render
     if k == "DeclRefExpr":
         d = n["decl"]
+        if subst is not None and d["id"] in subst:
+            return render_(subst[d["id"]])
         return d.get("qname") if d["kind"] in ("global", "staticmember", "enumconst", "function") and d.get("qname") else d["name"]
     if k == "MemberExpr":
         m = n["member"]
         if m["this"]:
             return m["name"]
-        return render(ks[0]) + ("->" if m["arrow"] else ".") + m["name"]
+        return render_(ks[0]) + ("->" if m["arrow"] else ".") + m["name"]
     if k == "CXXThisExpr":
         return "this"
     if k in ("IntegerLiteral", "FloatingLiteral", "CharacterLiteral"):
@@ -398,13 +441,13 @@ def render(n, fn=None):
     if k == "StringLiteral":
         return json.dumps(n.get("val"))
     if k in ("BinaryOperator", "CompoundAssignOperator"):
-        return "(" + render(ks[0]) + " " + n["op"] + " " + render(ks[1]) + ")"
+        return "(" + render_(ks[0]) + " " + n["op"] + " " + render_(ks[1]) + ")"
     if k == "UnaryOperator":
-        return ("%s%s" % (render(ks[0]), n["op"])) if n.get("postfix") else ("%s%s" % (n["op"], render(ks[0])))
+        return ("%s%s" % (render_(ks[0]), n["op"])) if n.get("postfix") else ("%s%s" % (n["op"], render_(ks[0])))
     if k == "ConditionalOperator":
-        return "(" + render(ks[0]) + " ? " + render(ks[1]) + " : " + render(ks[2]) + ")"
+        return "(" + render_(ks[0]) + " ? " + render_(ks[1]) + " : " + render_(ks[2]) + ")"
     if k == "ArraySubscriptExpr":
-        return render(ks[0]) + "[" + render(ks[1]) + "]"
+        return render_(ks[0]) + "[" + render_(ks[1]) + "]"
     if is_call(n):
         c = n["callee"]
         byid = {x["id"]: x for x in ks}
@@ -414,9 +457,9 @@ def render(n, fn=None):
                 if x["id"] == i:
                     return x
             return None
-        args = [render(find(i)) for i in n.get("args", [])]
+        args = [render_(find(i)) for i in n.get("args", [])]
         if "obj" in n:
-            o = render(find(n["obj"]))
+            o = render_(find(n["obj"]))
             if is_smart_deref(n):
                 return o
             if is_smart_bool(n):
@@ -440,20 +483,20 @@ def render(n, fn=None):
             return c["cls"].split("<")[0] + "(" + ", ".join(args) + ")"
         return c["qname"] + "(" + ", ".join(args) + ")"
     if k in ("CXXStaticCastExpr", "CStyleCastExpr", "CXXFunctionalCastExpr", "CXXDynamicCastExpr", "CXXReinterpretCastExpr", "CXXConstCastExpr"):
-        return "(" + n.get("toty", n.get("ty", "")) + ")" + render(ks[0] if ks else None)
+        return "(" + n.get("toty", n.get("ty", "")) + ")" + render_(ks[0] if ks else None)
     if k == "CXXNewExpr":
-        return "new " + n.get("newty", "") + "(" + ", ".join(render(x) for x in ks) + ")"
+        return "new " + n.get("newty", "") + "(" + ", ".join(render_(x) for x in ks) + ")"
     if k == "CXXThrowExpr":
-        return "throw " + (render(ks[0]) if ks else "")
+        return "throw " + (render_(ks[0]) if ks else "")
     if k == "CXXNullPtrLiteralExpr" or k == "GNUNullExpr":
         return "nullptr"
     if k == "CXXDefaultArgExpr":
         return "<default>"
     if k == "InitListExpr":
-        return "{" + ", ".join(render(x) for x in ks) + "}"
+        return "{" + ", ".join(render_(x) for x in ks) + "}"
     if k == "CXXScalarValueInitExpr":
         return "0"
-    return k + "(" + ", ".join(render(x) for x in ks) + ")"
+    return k + "(" + ", ".join(render_(x) for x in ks) + ")"
 
 
 # ---------------------------------------------------------------------------------------------
